@@ -388,6 +388,18 @@ func runC05() int {
 	compStates, _ := rep.Coverage["states"].(int)
 	rep.Coverage["component_states"] = compStates
 	rep.Coverage["component_depth"] = rep.Coverage["depth_completed"]
+	// the persisted unsafe flag (conflict seen) must survive save + load, otherwise a flagged tx is
+	// reported safe after a restart: differential of the unconfirmed set before/after reload
+	sub := core.NewReport("C05", "model_checking")
+	c11Component(sub, 2)
+	for _, v := range sub.Violations {
+		if strings.Contains(v.Class, "unsafe") || v.Clause == "behaviour-survives-restart" {
+			v.Property = "C05"
+			v.Clause = "unsafe-flag-persisted"
+			rep.AddViolation(v)
+		}
+	}
+	rep.Coverage["unsafe_flag_persistence_cases"] = sub.Coverage["component_cases"]
 	histCheckInto(rep, histCheck{prop: "C05", scenarios: c05NodeScenarios(), depthQ: 4, depthT: 6, statesQ: 250000, statesT: 4000000,
 		budgetQ: 120 * time.Second, budgetT: 15 * time.Minute, assume: peerAssumption,
 		rule: "(1) component: explicit-state BFS over {add tx (trusted/untrusted), remove, conflicting-query, add-request, tick 3.1s} on the real MemPool with txs A,B (same outpoint), C (two outpoints, overlapping A/B and D), D, E (independent), F (child of A), G; conflict sets, flags and the outpoint index compared with map[outpoint]set<txid> after every step. (2) node: explicit-state BFS over arrival orders and sources of R1, D1 (relevant double spend), D2 (irrelevant double spend), R3, M1 (spends the outpoints of I1 and R3), I1, confirmations that evict some of them, clock and restart on the real Node.Run; every relevant member of a conflicting pair must be reported unsafe and never safe afterwards, txs sharing no outpoint are never flagged"})
